@@ -333,6 +333,9 @@ impl Sim {
     pub fn fd_tracked(&self, fd: c_int) -> bool {
         self.fds.contains_key(&fd)
     }
+    pub fn forget_fd(&mut self, fd: c_int) {
+        self.fds.remove(&fd);
+    }
 
     pub fn unmodelled(&mut self, what: &str) {
         if self.harness_error.is_none() {
@@ -448,6 +451,9 @@ impl Sim {
     }
     pub fn post_open(&mut self, rel: &str, flags: c_int, fd: c_int, err: c_int) {
         if flags & libc::O_DIRECTORY != 0 {
+            if fd >= 0 {
+                self.fds.remove(&fd); // a stale association with this number, if any
+            }
             return; // opendir: directories are not tracked as fds
         }
         let mutating = Self::is_mut_open(flags);
